@@ -30,6 +30,8 @@ EXHAUSTIVE = {"quick": True, "thorough": True}
 
 SECURITY = {"key_file", "cert_file", "cert_reqs", "key_password", "ca_certs", "ca_cert_dir", "ca_cert_data", "ssl_version", "ssl_minimum_version", "ssl_maximum_version", "assert_hostname",
             "assert_fingerprint", "server_hostname", "ssl_context", "source_address", "_proxy", "_proxy_headers", "_proxy_config", "proxy", "proxy_config", "socket_options"}
+# values of the table that equal the implicit default of their keyword (absent == given: sharing a pool would be legitimate)
+DEFAULT_EQUIVALENT = {("block", 0), ("cert_reqs", 0), ("socket_options", 0), ("ssl_minimum_version", 0), ("ssl_maximum_version", 0), ("ssl_maximum_version", 1), ("ssl_version", 0)}
 CONNECTABLE = {"timeout", "maxsize", "block", "headers", "retries", "blocksize", "socket_options", "ssl_context", "server_hostname", "source_address"}
 
 
@@ -109,7 +111,7 @@ def _get(pm, how, scheme, host, port, pool_kwargs):
 def run_case(case) -> list[Failure]:
     import urllib3
 
-    if case.get("kind") != "key" or case.get("scheme") not in ("http", "https") or case.get("how") not in ("url", "host", "context") or case.get("path") not in ("default-vs-kwargs", "kwargs-vs-kwargs", "same"):
+    if case.get("kind") != "key" or case.get("scheme") not in ("http", "https") or case.get("how") not in ("url", "host", "context") or case.get("path") not in ("default-vs-kwargs", "kwargs-vs-kwargs", "same", "absent-vs-kwargs0", "absent-vs-kwargs1"):
         raise core.InvalidCase
     names = universe()
     base, vary = case.get("base", {}), case.get("vary")
@@ -138,6 +140,12 @@ def run_case(case) -> list[Failure]:
                 mgr_kw[vary] = value(vary, 0)
         elif case["path"] == "kwargs-vs-kwargs":
             x_kw, y_kw = ({vary: value(vary, 0)} if vary else {}), ({vary: value(vary, 1)} if vary else {})
+        elif case["path"].startswith("absent-vs-kwargs"):
+            # the keyword is absent on one side and has a value that differs from the implicit default on the other
+            idx = int(case["path"][-1])
+            if vary is None or (vary, idx) in DEFAULT_EQUIVALENT or vary == "ssl_context":
+                raise core.InvalidCase
+            x_kw, y_kw = None, {vary: value(vary, idx)}
         else:  # same: equal contexts, spelled twice
             x_kw = {vary: value(vary, 0)} if vary else None
             y_kw = {vary: value(vary, 0)} if vary else None
@@ -231,8 +239,10 @@ def enum_cases(tier):
     names = universe() + ["zz_unknown_keyword"]
     for vary in names:
         for scheme in ("http", "https"):
-            for path in ("default-vs-kwargs", "kwargs-vs-kwargs", "same"):
+            for path in ("default-vs-kwargs", "kwargs-vs-kwargs", "same", "absent-vs-kwargs0", "absent-vs-kwargs1"):
                 for how in ("url", "host", "context"):
+                    if path.startswith("absent") and ((vary, int(path[-1])) in DEFAULT_EQUIVALENT or vary == "ssl_context"):
+                        continue
                     yield {"kind": "key", "scheme": scheme, "path": path, "how": how, "base": {}, "vary": vary, "spelling": False}
     for scheme in ("http", "https"):
         for how in ("url", "host"):
@@ -252,7 +262,7 @@ def _hyp():
 
     names = universe()
     return st.fixed_dictionaries({
-        "kind": st.just("key"), "scheme": st.sampled_from(["http", "https"]), "path": st.sampled_from(["default-vs-kwargs", "kwargs-vs-kwargs", "same"]), "how": st.sampled_from(["url", "host", "context"]),
+        "kind": st.just("key"), "scheme": st.sampled_from(["http", "https"]), "path": st.sampled_from(["default-vs-kwargs", "kwargs-vs-kwargs", "same", "absent-vs-kwargs0", "absent-vs-kwargs1"]), "how": st.sampled_from(["url", "host", "context"]),
         "base": st.dictionaries(st.sampled_from(names), st.integers(0, 1), max_size=5), "vary": st.one_of(st.none(), st.sampled_from(names)), "spelling": st.booleans(),
     }).map(lambda c: dict(c, spelling=c["spelling"] and c["path"] == "same"))
 
@@ -277,7 +287,10 @@ def run_shard(spec):
     else:
 
         def body(case):
-            col.case(case, nontrivial(case), classes(case), check_case(case))
+            try:
+                col.case(case, nontrivial(case), classes(case), check_case(case))
+            except core.InvalidCase:
+                col.note("invalid_generated")
 
         core.hyp_run(_hyp(), spec["n"], spec["seed"], body)
     return col
